@@ -82,6 +82,17 @@ func (e *Exec) computeOrdinals(body *ast.BlockStmt, info *types.Info) {
 					if _, isB := info.ObjectOf(id).(*types.Builtin); isB {
 						return true
 					}
+					// a call through a function-valued local or parameter that was only renamed since the lock was
+					// taken keeps its recorded site name (`callsite next#0` stays bound)
+					if _, isVar := info.ObjectOf(id).(*types.Var); isVar && e.fi != nil && e.g.renames != nil {
+						for old, curs := range e.g.renames[e.fi] {
+							for _, c := range curs {
+								if c == name && len(curs) == 1 {
+									name = old
+								}
+							}
+						}
+					}
 				}
 				s := siteID{name, perName[name]}
 				perName[name]++
@@ -156,6 +167,22 @@ func verifyFunc(g *Gen, fi *funcInfo, ct *Contract, lit *ast.FuncLit, parentCt *
 		sig, _ = info.Types[lit].Type.(*types.Signature)
 	}
 	e.computeOrdinals(body, info)
+	if lit != nil {
+		// function literals nested in this literal keep their function-level ordinals (pre-order: they follow it
+		// directly), so `closure k` contracts and closure(k) mean the same thing here as in the enclosing function
+		for k := 0; ; k++ {
+			l := nthFuncLit(fi, k)
+			if l == nil {
+				break
+			}
+			if l == lit {
+				for x, v := range e.litOrd {
+					e.litOrd[x] = v + k + 1
+				}
+				break
+			}
+		}
+	}
 	fr := &Frame{fn: fi.obj, sig: sig, top: true, pkg: fi.pkg, body: body, entry: map[string]Val{}, entryT: map[string]types.Type{}, scopePos: body.Lbrace + 1}
 	e.frames = []*Frame{fr}
 	// receiver
@@ -993,7 +1020,7 @@ func mentionsEvents(x ast.Expr) bool {
 		if c, ok := n.(*ast.CallExpr); ok {
 			if id, ok := c.Fun.(*ast.Ident); ok {
 				switch id.Name {
-				case "called", "ncalls", "ret", "arg", "sent", "closed", "sentval", "recvd", "recvval", "spawned":
+				case "called", "ncalls", "ret", "arg", "sent", "closed", "sentval", "recvd", "recvval", "spawned", "visited", "closure":
 					found = true
 				}
 			}
@@ -1148,6 +1175,20 @@ func (e *Exec) chanInv(name string) *PredDef {
 		if ct != nil && ct.ChanInvs != nil {
 			if p := ct.ChanInvs[name]; p != nil {
 				return p
+			}
+			// the channel variable may have been renamed since the lock was taken (Gen.renames: old -> current)
+			if e.fi != nil && e.g.renames != nil {
+				for old, p := range ct.ChanInvs {
+					root, rest := old, ""
+					if i := strings.IndexAny(old, ".[("); i >= 0 {
+						root, rest = old[:i], old[i:]
+					}
+					for _, cur := range e.g.renames[e.fi][root] {
+						if cur+rest == name {
+							return p
+						}
+					}
+				}
 			}
 		}
 	}
